@@ -1,12 +1,11 @@
-"""Shared by C30/C31: canonical dumps of models / values, their Gallina terms,
-a parser for terms printed by Coq, generators of model trees, texts and
-quasiquote templates, and the runner of the real quote / quasiquote."""
-import re
+"""Shared by C30/C31: canonical dumps of models / values, the line protocol of
+the extracted model driver (extract/quote_driver.ml), generators of model
+trees, texts and quasiquote templates, and the runner of the real quote /
+quasiquote."""
 import struct
 
 from lib import vlib
 
-IMPORTS = ["HyV.Base.Text", "HyV.Quote.Model"]
 
 # ------------------------------------------------------------------ dumps
 KINDS = {"Expression": "KExpr", "List": "KList", "Tuple": "KTuple", "Set": "KSet", "Dict": "KDict"}
@@ -107,228 +106,249 @@ def classes_in(d, acc=None):
     return acc
 
 
-# ------------------------------------------------------------------ Gallina terms
-def ctext(s):
-    return "[" + "; ".join(str(ord(c)) for c in s) + "]%N" if s else "(@nil N)"
+# ------------------------------------------------------------------ the extracted model (tie T3)
+def build_driver():
+    import os
+    ok, log = vlib.coq_build(["Quote/Extract.vo"])
+    if not ok:
+        raise RuntimeError("extraction failed: " + log[-2000:])
+    ex = os.path.join(vlib.VERIF, "extract")
+    return vlib.build_ocaml("quote", [os.path.join(ex, "quote_model.mli"), os.path.join(ex, "quote_model.ml"),
+                                      os.path.join(ex, "quote_driver.ml")], "hymodel_quote")
 
 
-def copt(s):
-    return "None" if s is None else "(Some %s)" % ctext(s)
+def _b(n):
+    return ("-" if n < 0 else "") + bin(abs(n))[2:]
 
 
-def cbool(b):
-    return "true" if b else "false"
+def e_text(s, out):
+    out.append(str(len(s)))
+    out.extend(str(ord(c)) for c in s)
 
 
-def cz(z):
-    return "(%d)%%Z" % z
+def e_opt(o, out):
+    if o is None:
+        out.append("-")
+    else:
+        out.append("+")
+        e_text(o, out)
 
 
-def cn(n):
-    return "%d%%N" % n
+def e_kind(k, out):
+    t = k[0]
+    if t == "KFString":
+        out.append("FS")
+        e_opt(k[1], out)
+        out.append("1" if k[2] else "0")
+    elif t == "KFComp":
+        out.append("FC")
+        e_opt(k[1], out)
+        e_opt(k[2], out)
+        out.append("1" if k[3] else "0")
+    else:
+        out.append({"KExpr": "E", "KList": "L", "KTuple": "U", "KSet": "X", "KDict": "D"}[t])
 
 
-def cbytes(b):
-    return "[" + "; ".join(str(x) for x in b) + "]%N" if b else "(@nil N)"
-
-
-def ckind(k):
-    if k[0] == "KFString":
-        return "(KFString %s %s)" % (copt(k[1]), cbool(k[2]))
-    if k[0] == "KFComp":
-        return "(KFComp %s %s %s)" % (copt(k[1]), copt(k[2]), cbool(k[3]))
-    return k[0]
-
-
-def clist(items, ty):
-    return "[" + "; ".join(items) + "]" if items else "(@nil %s)" % ty
-
-
-def cmodel(d):
-    """Gallina term of type model for the dump of a pure model"""
-    k = d[0]
-    if k == "VSym":
-        return "(MSym %s)" % ctext(d[1])
-    if k == "VKw":
-        return "(MKw %s)" % ctext(d[1])
-    if k == "VInt":
-        return "(MInt %s)" % cz(d[1])
-    if k == "VFloat":
-        return "(MFloat %s)" % cn(d[1])
-    if k == "VCpx":
-        return "(MCpx %s %s)" % (cn(d[1]), cn(d[2]))
-    if k == "VStr":
-        return "(MStr %s %s)" % (ctext(d[1]), copt(d[2]))
-    if k == "VBytes":
-        return "(MBytes %s)" % cbytes(d[1])
-    if k == "VSeq":
-        return "(MSeq %s %s)" % (ckind(d[1]), clist([cmodel(x) for x in d[2]], "model"))
-    raise ValueError("not a model: %r" % (d,))
-
-
-def cvalue(d):
+def e_value(d, out):
+    """token encoding of a dump (a pure-model dump is also the encoding of the model)"""
     k = d[0]
     if k in ("VSym", "VKw"):
-        return "(%s %s)" % (k, ctext(d[1]))
-    if k in ("VInt", "PInt"):
-        return "(%s %s)" % (k, cz(d[1]))
-    if k in ("VFloat", "PFloat"):
-        return "(%s %s)" % (k, cn(d[1]))
-    if k in ("VCpx", "PCpx"):
-        return "(%s %s %s)" % (k, cn(d[1]), cn(d[2]))
-    if k == "VStr":
-        return "(VStr %s %s)" % (ctext(d[1]), copt(d[2]))
-    if k in ("VBytes", "PBytes"):
-        return "(%s %s)" % (k, cbytes(d[1]))
-    if k == "VSeq":
-        return "(VSeq %s %s)" % (ckind(d[1]), clist([cvalue(x) for x in d[2]], "value"))
-    if k == "PStr":
-        return "(PStr %s)" % ctext(d[1])
-    if k == "PBool":
-        return "(PBool %s)" % cbool(d[1])
-    if k == "PNone":
-        return "PNone"
-    if k in ("PList", "PTuple"):
-        return "(%s %s)" % (k, clist([cvalue(x) for x in d[1]], "value"))
-    if k == "POpaque":
-        return "(POpaque %s)" % cn(d[1])
-    raise ValueError("no Gallina term for %r" % (d,))
+        out.append("S" if k == "VSym" else "K")
+        e_text(d[1], out)
+    elif k in ("VInt", "PInt"):
+        out.extend(["I" if k == "VInt" else "pi", _b(d[1])])
+    elif k in ("VFloat", "PFloat"):
+        out.extend(["F" if k == "VFloat" else "pf", _b(d[1])])
+    elif k in ("VCpx", "PCpx"):
+        out.extend(["C" if k == "VCpx" else "pc", _b(d[1]), _b(d[2])])
+    elif k == "VStr":
+        out.append("T")
+        e_text(d[1], out)
+        e_opt(d[2], out)
+    elif k in ("VBytes", "PBytes"):
+        out.append("B" if k == "VBytes" else "pb")
+        out.append(str(len(d[1])))
+        out.extend(str(x) for x in d[1])
+    elif k == "VSeq":
+        out.append("Q")
+        e_kind(d[1], out)
+        out.append(str(len(d[2])))
+        for x in d[2]:
+            e_value(x, out)
+    elif k == "PStr":
+        out.append("ps")
+        e_text(d[1], out)
+    elif k == "PBool":
+        out.extend(["pB", "1" if d[1] else "0"])
+    elif k == "PNone":
+        out.append("pN")
+    elif k in ("PList", "PTuple"):
+        out.append("pl" if k == "PList" else "pt")
+        out.append(str(len(d[1])))
+        for x in d[1]:
+            e_value(x, out)
+    elif k == "POpaque":
+        out.extend(["po", _b(d[1])])
+    else:
+        raise ValueError("no encoding for %r" % (d,))
 
 
-# ------------------------------------------------------------------ parsing what Coq prints
-_TOK = re.compile(r"\s*(%[A-Za-z_]+|[A-Za-z_][A-Za-z_0-9'.]*|\d+|[()\[\];,\-])")
+class _Dec:
+    def __init__(self, line):
+        self.t = line.split()
+        self.i = 0
+
+    def nxt(self):
+        x = self.t[self.i]
+        self.i += 1
+        return x
+
+    def int_(self):
+        return int(self.nxt())
+
+    def bin_(self):
+        x = self.nxt()
+        return -int(x[1:], 2) if x[0] == "-" else int(x, 2)
+
+    def text(self):
+        n = self.int_()
+        return "".join(chr(self.int_()) for _ in range(n))
+
+    def opt(self):
+        return None if self.nxt() == "-" else self.text()
+
+    def bool_(self):
+        return self.nxt() == "1"
+
+    def kind(self):
+        t = self.nxt()
+        if t == "FS":
+            return ("KFString", self.opt(), self.bool_())
+        if t == "FC":
+            return ("KFComp", self.opt(), self.opt(), self.bool_())
+        return ({"E": "KExpr", "L": "KList", "U": "KTuple", "X": "KSet", "D": "KDict"}[t],)
+
+    def value(self):
+        t = self.nxt()
+        if t == "S":
+            return ("VSym", self.text())
+        if t == "K":
+            return ("VKw", self.text())
+        if t == "I":
+            return ("VInt", self.bin_())
+        if t == "F":
+            return ("VFloat", self.bin_())
+        if t == "C":
+            return ("VCpx", self.bin_(), self.bin_())
+        if t == "T":
+            return ("VStr", self.text(), self.opt())
+        if t == "B":
+            n = self.int_()
+            return ("VBytes", tuple(self.int_() for _ in range(n)))
+        if t == "Q":
+            k = self.kind()
+            n = self.int_()
+            return ("VSeq", k, tuple(self.value() for _ in range(n)))
+        if t == "pi":
+            return ("PInt", self.bin_())
+        if t == "pf":
+            return ("PFloat", self.bin_())
+        if t == "pc":
+            return ("PCpx", self.bin_(), self.bin_())
+        if t == "ps":
+            return ("PStr", self.text())
+        if t == "pb":
+            n = self.int_()
+            return ("PBytes", tuple(self.int_() for _ in range(n)))
+        if t == "pB":
+            return ("PBool", self.bool_())
+        if t == "pN":
+            return ("PNone",)
+        if t in ("pl", "pt"):
+            n = self.int_()
+            return ("PList" if t == "pl" else "PTuple", tuple(self.value() for _ in range(n)))
+        if t == "po":
+            return ("POpaque", self.bin_())
+        raise ValueError("bad tag from the model driver: %r" % t)
+
+    def res(self, f):
+        t = self.nxt()
+        if t == "ok":
+            return ("Ok", f())
+        e = self.nxt()
+        if e == "EUser":
+            return ("Err", "EUser", self.bin_())
+        return ("Err", e)
+
+    def run(self):
+        r = self.res(self.value)
+        n = self.int_()
+        return (r, [self.bin_() for _ in range(n)])
+
+    def render(self):
+        return self.res(lambda: (self.value(), self.bool_()))
+
+    def done(self):
+        assert self.i == len(self.t), "trailing output from the model driver"
 
 
-def parse_term(s):
-    toks = []
-    i = 0
-    s = s.strip()
-    while i < len(s):
-        m = _TOK.match(s, i)
-        if not m:
-            raise ValueError("cannot tokenise Coq output at %r" % s[i:i + 40])
-        if not m.group(1).startswith("%"):
-            toks.append(m.group(1))
-        i = m.end()
-    pos = [0]
+def encode_case(cmd, norm_tbl, gtbl, d):
+    """norm_tbl: {sym: normalised}; gtbl: {i: ('R', n) | ('V', dump)}; d: dump of the model"""
+    out = [cmd, str(len(norm_tbl))]
+    for k in sorted(norm_tbl):
+        e_text(k, out)
+        e_text(norm_tbl[k], out)
+    out.append(str(len(gtbl)))
+    for i in sorted(gtbl):
+        out.append(_b(i))
+        kind, x = gtbl[i]
+        if kind == "R":
+            out.extend(["R", _b(x)])
+        else:
+            out.append("V")
+            e_value(x, out)
+    e_value(d, out)
+    return " ".join(out)
 
-    def peek():
-        return toks[pos[0]] if pos[0] < len(toks) else None
 
-    def nxt():
-        t = toks[pos[0]]
-        pos[0] += 1
-        return t
+def run_model(binary, lines):
+    import subprocess
+    p = subprocess.run([binary], input="\n".join(lines) + "\n", capture_output=True, text=True, timeout=3600)
+    if p.returncode != 0:
+        raise RuntimeError("quote model driver failed: " + p.stderr[-1000:])
+    outs = p.stdout.splitlines()
+    if len(outs) != len(lines):
+        raise RuntimeError("quote model driver: %d results for %d cases" % (len(outs), len(lines)))
+    return outs
 
-    def atom():
-        t = nxt()
-        if t == "(":
-            if peek() == "-":
-                nxt()
-                v = -int(nxt())
-                assert nxt() == ")"
-                return v
-            items = [app()]
-            while peek() == ",":
-                nxt()
-                items.append(app())
-            assert nxt() == ")", "expected )"
-            return items[0] if len(items) == 1 else ("tuple",) + tuple(items)
-        if t == "[":
-            items = []
-            if peek() == "]":
-                nxt()
-                return items
-            items.append(app())
-            while peek() == ";":
-                nxt()
-                items.append(app())
-            assert nxt() == "]", "expected ]"
-            return items
-        if t == "-":
-            return -int(nxt())
-        if t.isdigit():
-            return int(t)
-        return (t,)
 
-    def app():
-        head = atom()
-        args = []
-        while peek() is not None and peek() not in (")", "]", ";", ","):
-            args.append(atom())
-        if not args:
-            return head
-        assert isinstance(head, tuple) and len(head) == 1, "application of a non-constructor"
-        return (head[0],) + tuple(args)
-
-    r = app()
-    if pos[0] != len(toks):
-        raise ValueError("trailing tokens in Coq output: %r" % toks[pos[0]:pos[0] + 5])
+def decode_quote(line):
+    d = _Dec(line)
+    r = {"wf_ctor": d.bool_(), "wf": d.bool_(), "render": d.render(), "run": d.run()}
+    d.done()
     return r
 
 
-def _txt(t):
-    if t == ("nil",):
-        return ""
-    return "".join(chr(c) for c in t)
+def decode_qq(line):
+    d = _Dec(line)
+    r = {"wf_ctor": d.bool_(), "wf": d.bool_(), "valid": d.bool_(), "rejected": d.bool_(), "top_splice": d.bool_(),
+         "render": d.render(), "run": d.run(), "ref": d.run(), "ref_p": d.run()}
+    r["as_model"] = d.res(d.value) if d.nxt() == "some" else None
+    d.done()
+    return r
 
 
-def _opt(t):
-    if t == ("None",):
-        return None
-    assert t[0] == "Some"
-    return _txt(t[1])
-
-
-def _bool(t):
-    return t == ("true",)
-
-
-def _kind(t):
-    if t[0] == "KFString":
-        return ("KFString", _opt(t[1]), _bool(t[2]))
-    if t[0] == "KFComp":
-        return ("KFComp", _opt(t[1]), _opt(t[2]), _bool(t[3]))
-    return (t[0],)
-
-
-def _lst(t):
-    return [] if t == ("nil",) else t
-
-
-def term_to_dump(t):
-    """parsed Coq term of type value or model -> dump (models map to their inj image)"""
-    k = t[0]
-    k2 = {"MSym": "VSym", "MKw": "VKw", "MInt": "VInt", "MFloat": "VFloat", "MCpx": "VCpx", "MStr": "VStr",
-          "MBytes": "VBytes", "MSeq": "VSeq"}.get(k, k)
-    if k2 in ("VSym", "VKw", "PStr"):
-        return (k2, _txt(t[1]))
-    if k2 in ("VInt", "PInt", "VFloat", "PFloat", "POpaque"):
-        return (k2, t[1])
-    if k2 in ("VCpx", "PCpx"):
-        return (k2, t[1], t[2])
-    if k2 == "VStr":
-        return (k2, _txt(t[1]), _opt(t[2]))
-    if k2 in ("VBytes", "PBytes"):
-        return (k2, tuple(_lst(t[1])))
-    if k2 == "VSeq":
-        return (k2, _kind(t[1]), tuple(term_to_dump(x) for x in _lst(t[2])))
-    if k2 == "PBool":
-        return (k2, _bool(t[1]))
-    if k2 == "PNone":
-        return (k2,)
-    if k2 in ("PList", "PTuple"):
-        return (k2, tuple(term_to_dump(x) for x in _lst(t[1])))
-    raise ValueError("unexpected constructor %r" % (k,))
-
-
-def term_to_res(t, conv=term_to_dump):
-    """res A -> ('Ok', x) | ('Err', tag...)"""
-    if t[0] == "Ok":
-        return ("Ok", conv(t[1]))
-    assert t[0] == "Err", t
-    e = t[1]
-    return ("Err",) + tuple(e)
+def norm_table(symbols):
+    """the head-symbol normaliser on the symbols of a case, taken from the real mangle"""
+    tbl = {}
+    for s in symbols:
+        try:
+            n = norm_of(s)
+        except Exception:  # noqa
+            continue
+        if n != s:
+            tbl[s] = n
+    return tbl
 
 
 # ------------------------------------------------------------------ the implementation side
@@ -441,12 +461,17 @@ def ok_brackets(rng, content_strs):
 class Gen:
     """random model trees built with the constructors of hy.models"""
 
-    def __init__(self, rng, chk=None):
+    def __init__(self, rng, chk=None, template_mode=False):
+        """template_mode: never emit a symbol that normalises to unquote / unquote-splice / quasiquote
+        (in a template those forms come from the caller's leaf callback only, with controlled arguments)"""
         self.rng = rng
         self.chk = chk
         from hy import models as M
         self.M = M
+        self.template_mode = template_mode
         self.syms = [s for s in SPECIAL_SYMS + WEIRD_SYMS if self._norm_ok(s)]
+        if template_mode:
+            self.syms = [s for s in self.syms if norm_of(s) not in ("unquote", "unquote-splice", "quasiquote")]
 
     @staticmethod
     def _norm_ok(s):
@@ -577,8 +602,10 @@ class Gen:
         n = rng.choice([0, 1, 2, 2, 3, 3, 4, 5])
         items = [self.tree(depth - 1, leaf) for _ in range(n)]
         if cls is M.Expression and rng.random() < 0.25:
-            items = [self.symbol(["unquote", "unquote-splice", "quasiquote", "quote", "unquote_splice", "\uff55nquote",
-                                  "unpack-iterable", "or"])] + items[:rng.choice([0, 1, 1, 2])]
+            heads = (["quote", "unpack-iterable", "or", "unpack-mapping", "hy"] if self.template_mode else
+                     ["unquote", "unquote-splice", "quasiquote", "quote", "unquote_splice", "\uff55nquote",
+                      "unpack-iterable", "or"])
+            items = [self.symbol(heads)] + items[:rng.choice([0, 1, 1, 2])]
         return cls(items)
 
 
@@ -608,30 +635,3 @@ def collect_symbols(d, acc):
     elif d[0] in ("PList", "PTuple"):
         for x in d[1]:
             collect_symbols(x, acc)
-
-
-def norm_defs(symbols):
-    """Gallina definition of the head-symbol normaliser on the symbols of this batch (taken from the real mangle)"""
-    ents = []
-    for s in sorted(symbols):
-        try:
-            n = norm_of(s)
-        except Exception:  # noqa
-            continue
-        if n != s:
-            ents.append("(%s, %s)" % (ctext(s), ctext(n)))
-    return ("Definition NT : list (text * text) := %s.\n"
-            "Fixpoint lookup_norm (tbl : list (text * text)) (s : text) : text :=\n"
-            "  match tbl with [] => s | (k, v) :: r => if text_eqb k s then v else lookup_norm r s end.\n"
-            "Definition normf (s : text) : text := lookup_norm NT s.\n"
-            % clist(ents, "(text * text)"))
-
-
-USER_DEFS = (
-    "Fixpoint lookup_g (tbl : list (Z * res value)) (i : Z) : res value :=\n"
-    "  match tbl with [] => Err EUnmodelled | (k, v) :: r => if Z.eqb k i then v else lookup_g r i end.\n"
-    "Definition userf (tbl : list (Z * res value)) (m : model) (st : list Z) : res value * list Z :=\n"
-    "  match m with\n"
-    "  | MSeq KExpr [MSym [103%N]; MInt i] => (lookup_g tbl i, st ++ [i])\n"
-    "  | _ => (Err EUnmodelled, st)\n"
-    "  end.\n")
